@@ -20,7 +20,7 @@ Your task: make a small change to the Go source of LuaHelper in your worktree th
 
 Deliver, inside {wt}:
  - the source change itself, left uncommitted in the worktree (git diff must show it; do not commit),
- - a demonstration: a new Go test file (name it zz_seeded_demo_test.go, in whichever package is convenient) or a small Go program that FAILS with your change and PASSES on the unmodified code. Verify both directions yourself (use `git stash` / `git stash pop` or a second checkout of the file to run the demo against the original code). The demonstration should exercise the real code (public or package-internal functions), not a copy of it.
+ - a demonstration: a new Go test file (name it zz_seeded_demo_test.go, in whichever package is convenient) or a small Go program that FAILS with your change and PASSES on the unmodified code. Verify both directions yourself: save your change with `git diff > /tmp/<something>.patch`, undo it with `git apply -R`, run the demo against the original code, then re-apply with `git apply`. Do NOT use `git stash`: the stash is shared between all worktrees of this repository and other people are working in sibling worktrees. The demonstration should exercise the real code (public or package-internal functions), not a copy of it.
  - a file {wt}/SEEDED.md with: which clause of the property is broken, exactly what is needed for it to manifest, the commands you ran and their outcome (build, full test suite with the change, demo with and without the change).
 
 Keep the change small (ideally 1-10 lines in one or two files). Prefer changing logic in the code paths the record's anchors point to. When you are done, reply with a short summary: files changed, the diff, how the demo is run, and confirmation of the four conditions. Environment for every shell command: export GOFLAGS=-mod=mod GOPROXY=off GOSUMDB=off GOTOOLCHAIN=local""")
